@@ -94,6 +94,16 @@ def programs(rng, quick):
                 nj("_ws2dwcvp", lab, _ws2dwcvp, yc, w, 0.9, sr, bool(rng.getrandbits(1)))
             lz("ws2doptvplc_tyx", lab, ws2doptvplc_tyx, yi.reshape(n, 1, 1), 0.9, ND)
             gu("ws2dgu", lab, ops.ws2dgu, (y, rng.choice([0.0, 0.5, 10.0, 1e3]), ND), [((n,), "int16")])
+            if n >= 5:      # cells the fixed and GCV kernels must mask: NaN, +inf, -inf
+                for bad in (np.nan, np.inf, -np.inf):
+                    yb = y.copy()
+                    yb[rng.randrange(n)] = bad
+                    if (np.isfinite(yb) & (yb != ND)).sum() > 5 or n == 5:
+                        tag = lab + f",cell={bad}"
+                        gu("ws2dgu", tag, ops.ws2dgu, (yb, 10.0, ND), [((n,), "int16")])
+                        gu("ws2dpgu", tag, ops.ws2dpgu, (yb, 10.0, ND, 0.9), [((n,), "int16")])
+                        gu("ws2dwcv", tag, ops.ws2dwcv, (yb, ND, sr, False), [((n,), "int16"), ((), "float64")])
+                        gu("ws2dwcvp", tag, ops.ws2dwcvp, (yb, ND, 0.9, sr, True), [((n,), "int16"), ((), "float64")])
             gu("ws2dpgu", lab, ops.ws2dpgu, (y, rng.choice([0.5, 10.0]), ND, rng.choice([0.1, 0.9])), [((n,), "int16")])
             gu("ws2doptv", lab, ops.ws2doptv, (y, ND, sr), [((n,), "int16"), ((), "float64")])
             gu("ws2doptvp", lab, ops.ws2doptvp, (y, ND, 0.9, sr), [((n,), "int16"), ((), "float64")])
